@@ -181,14 +181,20 @@ fn arb_ijson_value(max_digits: usize) -> BoxedStrategy<RefValue> {
 	let tricky_keys = prop::sample::select(vec!["\u{e000}", "\u{ffff}", "\u{10000}", "\u{10ffff}", "a\u{e000}", "a\u{10000}", "\u{d7ff}", "\u{fb33}", "\u{1f600}", "\u{20ac}", "\r", "1", "\u{80}", "\u{f6}", "a", "aa", "", "\u{e000}\u{10000}", "\u{10000}\u{e000}"])
 		.prop_map(|s| s.to_string());
 	let key = prop_oneof![4 => tricky_keys, 3 => gen::arb_key(false)];
-	leaf.prop_recursive(4, 48, 6, move |inner| {
+	let wide_key = prop_oneof![2 => gen::arb_long_key(), 2 => gen::arb_string(), 1 => (0x1_0000u32..0x1_0400, 0xE000u32..0xE400, any::<bool>()).prop_map(|(a, b, first)| {
+		let (a, b) = (char::from_u32(a).unwrap(), char::from_u32(b).unwrap());
+		if first { format!("{a}{b}") } else { format!("{b}{a}") }
+	})];
+	let wide = proptest::collection::vec((wide_key, leaf.clone()), 9..90).prop_map(RefValue::Obj);
+	let tree = leaf.prop_recursive(4, 48, 6, move |inner| {
 		prop_oneof![
 			1 => proptest::collection::vec(inner.clone(), 0..=5).prop_map(RefValue::Arr),
 			2 => proptest::collection::vec((key.clone(), inner), 0..=6).prop_map(RefValue::Obj),
 		]
-	})
-	.prop_map(gen::dedup_keys)
-	.boxed()
+	});
+	prop_oneof![8 => tree, 1 => wide.clone(), 1 => proptest::collection::vec(wide, 1..4).prop_map(RefValue::Arr)]
+		.prop_map(gen::dedup_keys)
+		.boxed()
 }
 
 // ---------------------------------------------------------------------------
